@@ -19,7 +19,7 @@ fi
 CMD="$(head -60 "$D/demo.cpp" | sed -E 's#^[ \t]*(//|\*|/\*)+ ?##' | sed -e ':a' -e '/\\$/N; s/\\\n//; ta' | grep -m1 -E '(^|[ :])(g\+\+|clang\+\+)(-[0-9]+)? ' | sed -E 's#^.*(g\+\+|clang\+\+)#\1#')"
 [ -n "$ORIG" ] && CMD="${CMD//$ORIG/$WT}"
 CMD="$(echo "$CMD" | sed -E "s#-I *[^ ]*/(include|external/tl)( |\$)#-I$WT/\1 #g")"
-CMD="${CMD%%&&*}"; CMD="${CMD%%;*}"
+CMD="${CMD%%&&*}"; CMD="${CMD%%;*}"; CMD="${CMD%% (*}"   # trailing "(remark)" after the command
 build_demo() { # $1 = output binary
   local c; c="$(echo "$CMD" | sed -E "s#(^| )[^ ]*demo\.cpp#\1$D/demo.cpp#; s#-o +[^ ]+#-o $1#")"
   echo "$c" | grep -q -- "-o " || c="$c -o $1"
